@@ -198,7 +198,12 @@ func judgeScenario(prop string, sc *SchedScenario, res *UnitResult) *SchedResult
 		return r
 	}
 	if r.Diverged != "" {
-		res.EngineError = "schedule replay diverged in scenario " + sc.Name + ": " + r.Diverged
+		// The same choice sequence led to another set of enabled threads: the code under test is not deterministic under
+		// replay.  The one source the scheduler does not own is Go's map iteration order (e.g. DEL a b ranges over a map
+		// of its keys, so which key goes first differs between executions).  The scenario is abandoned and the run is
+		// reported as not exhaustive - never as a violation, and not as an engine failure either.
+		res.Stats["scenarios_abandoned_nondeterministic_replay"]++
+		res.Capped = "scenario " + sc.Name + ": schedule replay diverged (map iteration order in the code under test is not owned): " + r.Diverged
 		return r
 	}
 	if r.Stuck {
